@@ -89,6 +89,14 @@ func zzC15_faults() {
 			vQuiesce()
 		}
 	}
+	// a handler is registered at run time after the fault (what sm.Client does on every dial)
+	registered := false
+	go func() {
+		mux.HandleFunc("ZZR", func(c Conn, m *Message) {})
+		registered = true
+	}()
+	vQuiesce()
+	vAssert(registered, "handlers can still be registered after a fault on some connection")
 	c := zzNewTransport("C")
 	l.ch <- zzAccept{c: c}
 	vQuiesce()
